@@ -66,6 +66,12 @@ CHECKS.update({
                   'is_free/sampler/stop flag as oracles) - afterwards the invariant holds again (new node free, finite, within a step of its parent, inside the limit box, parent index below its own), Trapped leaves the tree unchanged, Reached => within a step of the target; '
                   'connect, get_until_root (all shapes) and the path assembly / cancellation / tree alternation of dual_rrt_connect over those contracts. Termination and completeness are outside.', design='6/C13'),
 })
+CHECKS.update({
+ 'C02': dict(text='forward() and then inverse_intern() ON ITS OUTPUT are executed from MIR with all parameters and offsets free and the joint angles as algebraic atoms; atan2/acos/sqrt are resolved exactly in the function field '
+                  '(a root is replaced by a candidate only when candidate^2 - radicand normalises to zero; its sign is the configuration-class assumption). For each class of (shoulder, elbow, wrist) signs (4 in quick, all 8 in thorough) the solver decides that, '
+                  'for the branch serving that class, sin and cos of every pre-normalisation angle equal those of the generating joint (numerators normalise to the zero polynomial) - completeness for every parameter set with c2>0 and non-zero reach radii. '
+                  'Closure: table rows i+4 are (theta4+pi, -theta5, theta6-pi) of rows i and forward() is invariant under that map.', design='6/C02'),
+})
 PENDING = {}
 NA = {}
 def main():
